@@ -249,14 +249,13 @@ Proof. intros ->. apply skipn_app_exact. Qed.
 
 Lemma nla_parse_algo fuel code name key rest :
   (0 <= code < 65536)%Z -> wf_name name -> List.length key <= 64 ->
-  let d := attr_bytes (algo_attr code name key) ++ rest in
-  nla_parse (S fuel) d
+  nla_parse (S fuel) (attr_bytes (algo_attr code name key) ++ rest)
   = match nla_parse fuel rest with
-    | Some r => Some ((Z.to_N code, (136, sub d 4 132)) :: r)
+    | Some r => Some ((Z.to_N code, (136, sub (attr_bytes (algo_attr code name key) ++ rest) 4 132)) :: r)
     | None => None
     end.
 Proof.
-  intros Hc Hn Hk d. destruct (algo_attr_decoded code name key rest Hc Hn Hk) as (Hlen & Hty & _).
+  intros Hc Hn Hk. set (d := attr_bytes (algo_attr code name key) ++ rest). destruct (algo_attr_decoded code name key rest Hc Hn Hk) as (Hlen & Hty & _).
   fold d in Hlen, Hty.
   rewrite (nla_parse_step fuel d 136).
   - replace (skipn (round_up 136 4) d) with rest.
@@ -363,7 +362,10 @@ Proof.
   rewrite <- Hmsg in F1, F2, F3, F4, F5, F6, F7, F8, F9, F10, Fsel, Flft.
   change NLMSG_HDRLEN with 16.
   rewrite F1, F2, F3, F4, F5, F6, F7, F8, F9, F10, Fsel, Flft.
-  Show. rewrite (family_same _ _ Hv2) at 1. rewrite !kaddr_image by assumption.
+  assert (Hd2 : kaddr (family_of (a_src a)) (ip_packed (a_dst a) ++ zeros (16 - List.length (ip_packed (a_dst a))))
+                = ip_packed (a_dst a))
+    by (rewrite (family_same (a_src a) (a_dst a) Hv2); apply kaddr_image; assumption).
+  rewrite Hd2. rewrite kaddr_image by assumption.
   (* attributes *)
   subst attrs. replace (rq_attrs r) with
     ((if Z.eqb (a_ipsec_proto a) 50 then [algo_attr 2 (a_enc a) (a_ske a)] else []) ++ [algo_attr 1 (a_auth a) (a_ska a)])
